@@ -822,9 +822,98 @@ def ident_validity(st):
     return cs
 
 
+def judge(ck, mode, rname, I, e, l, kind, val, native, uniq, counter, nat_every, render):
+    """compare one classified leaf with the reference outcome; replay natively"""
+    while True:
+        got = view(I, l, l.ret, e.local_tys[0])
+        got_ok = isinstance(got, dict) and got.get("_v") == "Ok"
+        ck.reach(kind)
+        ck.reach("%s:%s" % (rname, kind))
+        good = True
+        why = ""
+        if kind == "ok":
+            if mode in ("C01", "C02"):
+                if not got_ok:
+                    good, why = False, "mistake-free input rejected: %r" % (got,)
+                elif mode == "C01":
+                    eqs = []
+                    if not value_eqs(val, got["0"], eqs):
+                        good, why = False, "value shape differs: expected %r got %r" % (val, got["0"])
+                    elif eqs:
+                        okv, _ = ck.smt_valid(l.pc, z3.And(eqs))
+                        if not okv:
+                            good, why = False, "field values differ from the declared mapping"
+                    else:
+                        ck.ok()
+                else:
+                    ck.ok()
+            else:
+                break
+        else:
+            if mode == "C01":
+                break
+            if got_ok:
+                good, why = False, "input with mistakes accepted"
+            else:
+                act = flat_errors(got["0"], l)
+                for e_ in val:
+                    ck.reach("err:" + e_.kind)
+                good, why = match_errors(val, act, l, check_spans=(mode == "C03"))
+                if good:
+                    ck.ok()
+        counter[0] += 1
+        need_native = (not good) or counter[0] % nat_every == 0 or (mode == "C01" and kind == "ok")
+        if not need_native:
+            break
+        mdl = ck.model_of(list(l.pc) + ident_validity(l))
+        if mdl is None:
+            mdl = ck.model_of(l.pc)
+        req, text = render(l, mdl)
+        nat = native.ask(req)
+        res = nat.get("result") if isinstance(nat, dict) else None
+        if kind == "ok":
+            try:
+                expn = {"ok": native_value(val, mdl)}
+            except ValueError:
+                expn = None
+            agree = (res == expn) if mode == "C01" else (isinstance(res, dict) and "ok" in res)
+        else:
+            exl = native_errors(val, l, mdl, text, mode == "C03")
+            if isinstance(res, dict) and "err" in res and exl is not None:
+                if mode != "C03":
+                    exl = [(x[0], ("any" if x[1] else None), x[2]) for x in exl]
+                    # spans are not part of C02: accept any span status
+                    agree = compare_native_errors_nospan(exl, res["err"])
+                else:
+                    agree = compare_native_errors(exl, res["err"])
+                expn = {"err": exl}
+            else:
+                agree = False if exl is not None else None
+                expn = {"err": exl}
+        if agree is None:
+            break
+        if good and agree:
+            ck.native_agree += 1
+            if len(ck.samples) < 10 and counter[0] % 7 == 0:
+                ck.sample({"receiver": rname, "attribute_body": text.s, "expected": repr(expn)[:300], "native": repr(res)[:300],
+                           "path_condition": [str(c)[:120] for c in l.pc][:8]})
+        elif good and not agree:
+            ck.report("%s:native:%s" % (rname, kind), "native outcome differs from the reference model",
+                      {"property": ck.pid, "receiver": rname, "request": req, "expected": expn, "observed": nat})
+        elif not good and agree:
+            ck.obligations += 1
+            ck.engine("%s: symbolic outcome disagrees with the oracle (%s) but the native run agrees with the oracle: %s" % (rname, why, req))
+        else:
+            ck.obligations += 1
+            ck.report(violation_key(rname, kind, val, why), why,
+                      {"property": ck.pid, "receiver": rname, "request": req, "expected": expn, "observed": nat, "symbolic": repr(got)[:1500]})
+        break
+
+
 # ---------------------------------------------------------------------------------------------- the check driver
 QUICK_RECEIVERS = ["S1", "S2", "S3", "S4", "S5", "S6", "S7", "S8", "S8b", "S8c", "S8d", "S9", "S11", "S12", "S13", "S14"]
 # receivers whose leaf count explodes get a smaller top-level bound: name -> (K quick, K thorough)
+META_RECEIVERS = ["S1", "S2", "S9c"]
 SMALL_K = {"S9": (1, 2)}
 
 
@@ -856,6 +945,30 @@ def receiver_job(ck, mode, prog, natbin, rname, K, nestedK, quick, nat_every):
     native = Native(natbin)
     uniq = [0]
     counter = [0]
+
+    def render_list(l, mdl):
+        text = Text()
+        render_items(l, mdl, "items*", text, uniq)
+        return "(from_list %s %s)" % (rname, sx_str(text.s)), text
+
+    def render_meta(l, mdl):
+        text = Text()
+        text.put("zz")
+        form = l.decisions.get("item*#d")
+        if form == 1:
+            if l.decisions.get("item*.List.0.tokens.parsed#d") == 1:
+                text.put("(=)")
+            else:
+                text.put("(")
+                render_items(l, mdl, "item*.List.0.tokens.parsed.Ok.0", text, uniq)
+                text.put(")")
+        elif form == 2:
+            text.put(" = ")
+            vs = len(text.s)
+            text.put("[1]")
+            text.mark("item*.NameValue.0.value", vs)
+        text.mark("item*", 0)
+        return "(from_meta %s %s)" % (rname, sx_str(text.s)), text
     if True:
         r = S.BY_NAME[rname]
         t_r = __import__("time").time()
@@ -888,90 +1001,26 @@ def receiver_job(ck, mode, prog, natbin, rname, K, nestedK, quick, nat_every):
             if kind in ("none", "unsupported") or orc.undetermined:
                 ck.engine("%s: oracle could not classify a leaf (%s %r)" % (rname, kind, val))
                 continue
-            got = view(I, l, l.ret, e.local_tys[0])
-            got_ok = isinstance(got, dict) and got.get("_v") == "Ok"
-            ck.reach(kind)
-            ck.reach("%s:%s" % (rname, kind))
-            good = True
-            why = ""
-            if kind == "ok":
-                if mode in ("C01", "C02"):
-                    if not got_ok:
-                        good, why = False, "mistake-free input rejected: %r" % (got,)
-                    elif mode == "C01":
-                        eqs = []
-                        if not value_eqs(val, got["0"], eqs):
-                            good, why = False, "value shape differs: expected %r got %r" % (val, got["0"])
-                        elif eqs:
-                            okv, _ = ck.smt_valid(l.pc, z3.And(eqs))
-                            if not okv:
-                                good, why = False, "field values differ from the declared mapping"
-                        else:
-                            ck.ok()
-                    else:
-                        ck.ok()
-                else:
+            judge(ck, mode, rname, I, e, l, kind, val, native, uniq, counter, nat_every, render_list)
+        if mode in ("C02", "C03") and rname in META_RECEIVERS:
+            e2 = prog.entry("entry_%s_meta_flat" % rname)
+            I2 = Interp(prog, models.all_models(OPTS), Pol(Kr, max(nestedK, 2)), timeout_ms=ck.timeout_ms)
+            leaves2 = I2.explore(e2, [Lazy("item", e2.local_tys[1])])
+            ck.absorb(I2, leaves2, "entry_%s_meta_flat" % rname)
+            ck.check_exhaustive(I2, leaves2, rname + ":from_meta")
+            for l in leaves2:
+                if l.status != "returned":
+                    ck.engine("%s from_meta: leaf %s %s" % (rname, l.status, l.info or l.panics))
                     continue
-            else:
-                if mode == "C01":
+                orc = Oracle(ck, l)
+                it = Item("item")
+                it.kind = "meta"
+                it.meta = "item*"
+                kind, val = orc.conv_leaf(dict(ty=rname, multiple=False, with_=None, map=None, and_then=None), it, r)
+                if kind in ("none", "unsupported") or orc.undetermined:
+                    ck.engine("%s from_meta: oracle could not classify a leaf (%s %r)" % (rname, kind, val))
                     continue
-                if got_ok:
-                    good, why = False, "input with mistakes accepted"
-                else:
-                    act = flat_errors(got["0"], l)
-                    for e_ in val:
-                        ck.reach("err:" + e_.kind)
-                    good, why = match_errors(val, act, l, check_spans=(mode == "C03"))
-                    if good:
-                        ck.ok()
-            counter[0] += 1
-            need_native = (not good) or counter[0] % nat_every == 0 or (mode == "C01" and kind == "ok")
-            if not need_native:
-                continue
-            mdl = ck.model_of(list(l.pc) + ident_validity(l))
-            if mdl is None:
-                mdl = ck.model_of(l.pc)
-            text = Text()
-            render_items(l, mdl, "items*", text, uniq)
-            req = "(from_list %s %s)" % (rname, sx_str(text.s))
-            nat = native.ask(req)
-            res = nat.get("result") if isinstance(nat, dict) else None
-            if kind == "ok":
-                try:
-                    expn = {"ok": native_value(val, mdl)}
-                except ValueError:
-                    expn = None
-                agree = (res == expn) if mode == "C01" else (isinstance(res, dict) and "ok" in res)
-            else:
-                exl = native_errors(val, l, mdl, text, mode == "C03")
-                if isinstance(res, dict) and "err" in res and exl is not None:
-                    if mode != "C03":
-                        exl = [(x[0], ("any" if x[1] else None), x[2]) for x in exl]
-                        # spans are not part of C02: accept any span status
-                        agree = compare_native_errors_nospan(exl, res["err"])
-                    else:
-                        agree = compare_native_errors(exl, res["err"])
-                    expn = {"err": exl}
-                else:
-                    agree = False if exl is not None else None
-                    expn = {"err": exl}
-            if agree is None:
-                continue
-            if good and agree:
-                ck.native_agree += 1
-                if len(ck.samples) < 10 and counter[0] % 7 == 0:
-                    ck.sample({"receiver": rname, "attribute_body": text.s, "expected": repr(expn)[:300], "native": repr(res)[:300],
-                               "path_condition": [str(c)[:120] for c in l.pc][:8]})
-            elif good and not agree:
-                ck.report("%s:native:%s" % (rname, kind), "native outcome differs from the reference model",
-                          {"property": ck.pid, "receiver": rname, "request": req, "expected": expn, "observed": nat})
-            elif not good and agree:
-                ck.obligations += 1
-                ck.engine("%s: symbolic outcome disagrees with the oracle (%s) but the native run agrees with the oracle: %s" % (rname, why, req))
-            else:
-                ck.obligations += 1
-                ck.report(violation_key(rname, kind, val, why), why,
-                          {"property": ck.pid, "receiver": rname, "request": req, "expected": expn, "observed": nat, "symbolic": repr(got)[:1500]})
+                judge(ck, mode, rname + ":from_meta", I2, e2, l, kind, val, native, uniq, counter, nat_every, render_meta)
         if os.environ.get("VERIF_VERBOSE"):
             print("  %s: %d leaves, %.1fs, solver %d" % (rname, len(leaves), __import__("time").time() - t_r, ck.solver_queries), flush=True)
     native.close()
